@@ -91,6 +91,8 @@ func TestSharedConn(t *testing.T) {
 			var handles []net.PacketConn
 			var dm sync2
 			kh := map[string]string{}
+			tried := map[string]bool{} // closers released towards a Once that another closer is inside of (TryEnter)
+			enterLogged := map[string]bool{}
 			rh := map[string]string{}
 			rres := map[string]string{}
 			sent, writes := 0, 0
@@ -124,6 +126,13 @@ func TestSharedConn(t *testing.T) {
 						a = "idle"
 					case "done":
 						a = "ret"
+					case "blocked":
+						if tried[k] {
+							a = "close" // waiting at the Once somebody else is inside of: it has not begun to execute the body
+						}
+					}
+					if tried[k] && !enterLogged[k] && a == "ret" {
+						a = "close" // it went through the finished Once and returned; its CloseEnter is the next line of the log
 					}
 					kpc[k] = a
 					khs[k] = kh[k]
@@ -187,6 +196,23 @@ func TestSharedConn(t *testing.T) {
 				}
 				s.step(k)
 				logEv(scEvent[site], map[string]any{"p": k})
+				if s.loose {
+					// closers that waited at a Once have returned once nobody is left in a mutex: back to exact quiescence
+					still := false
+					for _, k2 := range job.Closers {
+						if tried[k2] && s.at(k2) == "blocked" {
+							still = true
+						}
+						if tried[k2] && !enterLogged[k2] && s.at(k2) == "done" {
+							enterLogged[k2] = true
+							logEv("CloseEnter", map[string]any{"p": k2})
+						}
+					}
+					if !still {
+						s.loose = false
+						synctest.Wait()
+					}
+				}
 				return true
 			}
 			for _, lab := range path {
@@ -214,6 +240,30 @@ func TestSharedConn(t *testing.T) {
 					}
 				case "CloseEnter", "Cancel", "Unref", "UClose":
 					ok = s.at(args[0]) == scSite[name] && closerStep(args[0])
+				case "TryEnter":
+					// a step the model forbids (near miss): release a closer towards the Once of a handle while another closer is
+					// inside it. sync.Once makes it wait there (nothing to log: it has not entered); if it comes out at the next
+					// yield point instead, the code let a second closer into the body and that is logged as its CloseEnter.
+					k := args[0]
+					if s.at(k) == "close" && inOnce(kh[k]) {
+						st["try_enter"]++
+						tried[k] = true
+						s.loose = true
+						s.release(k)
+						s.wait()
+						switch s.at(k) {
+						case "blocked":
+							st["try_enter_waited"]++
+						case "done":
+							enterLogged[k] = true
+							logEv("CloseEnter", map[string]any{"p": k})
+						default:
+							st["try_enter_entered"]++
+							enterLogged[k] = true
+							logEv("CloseEnter", map[string]any{"p": k})
+						}
+						ok = true
+					}
 				case "RStart":
 					r, h := args[0], args[1]
 					if s.at(r) == "absent" && hidx[h] < len(handles) {
@@ -243,7 +293,7 @@ func TestSharedConn(t *testing.T) {
 							before[r] = s.at(r)
 						}
 						sock.in <- dgram{stunRequest("u1:peer"), &net.UDPAddr{IP: net.IPv4(10, 0, 0, 9), Port: 9}}
-						synctest.Wait()
+						s.wait()
 						sent++
 						woken := ""
 						for _, r := range job.Readers {
@@ -272,7 +322,7 @@ func TestSharedConn(t *testing.T) {
 						case errors.Is(err, io.ErrClosedPipe):
 							res = "closed"
 						}
-						synctest.Wait()
+						s.wait()
 						writes++
 						wlast = []string{h, res}
 						logEv("Write", map[string]any{"h": h})
